@@ -8,9 +8,10 @@ ConnLostT(sc) == TRUE /\ ConnLost(sc)
 BackoffDoneT(sc) == TRUE /\ BackoffDone(sc)
 DisconnectT(sc, how) == TRUE /\ Disconnect(sc, how)
 ScShutdownT(sc) == TRUE /\ ScShutdown(sc)
+UpdAddrsT(sc, kind) == TRUE /\ UpdAddrs(sc, kind)
 ChanCloseT == TRUE /\ ChanClose
 DeliverT == TRUE /\ Deliver
 Next == \/ \E sc \in SCs : \/ ConnectT(sc) \/ DialOkT(sc) \/ DialFailT(sc) \/ ConnLostT(sc) \/ BackoffDoneT(sc)
-                           \/ ScShutdownT(sc) \/ \E how \in {"goaway", "close"} : DisconnectT(sc, how)
+                           \/ ScShutdownT(sc) \/ (\E kind \in {"same", "new", "keep"} : UpdAddrsT(sc, kind)) \/ \E how \in {"goaway", "close"} : DisconnectT(sc, how)
         \/ ChanCloseT \/ DeliverT
 ====
